@@ -76,6 +76,9 @@ def Axis.toAxis0 (a : Axis) : Axis0 := { name := a.name, labels := a.labels, kin
 
 def Axis.isMulti (a : Axis) : Bool := !a.members.isEmpty
 
+/-- `Axis(ax.values, ax.name)`: a fresh axis with the labels of `a` - no metadata, not grouped -/
+def Axis.bare (a : Axis) : Axis := { name := a.name, labels := a.labels, kind := a.kind }
+
 /-- size of an axis: product of member sizes for a MultiAxis, else number of labels -/
 def Axis.size (a : Axis) : Nat :=
   if a.members.isEmpty then a.labels.length else (a.members.map (·.labels.length)).foldl (· * ·) 1
